@@ -1,0 +1,34 @@
+//go:build verif
+
+package dsp
+
+// VerifArchForceSSE2 makes the whole package behave as on an amd64 CPU without
+// AVX2: the probe result is cleared (call-time dispatch) and the init-time
+// dispatch variables are re-assigned exactly as dsp_amd64.go's init() does
+// when hasAVX2 is false.  Verification hook for property C13 (the pipeline of
+// the normal build is run a second time with AVX2 off).  Returns false when
+// there is nothing to switch.
+func VerifArchForceSSE2() bool {
+	hasAVX2 = false
+	Init() // pure-Go defaults, as the package-level init() of dsp.go
+
+	SSE4x4 = sse4x4SSE2
+	SSE16x16 = sse16x16SSE2
+	FTransformWHT = fTransformWHTSSE2
+	TransformWHT = transformWHTSSE2
+	PredLuma16[0] = dc16SSE2
+	PredLuma16[1] = tm16SSE2
+	PredLuma16[2] = ve16SSE2
+	PredLuma16[3] = he16SSE2
+	PredChroma8[0] = dc8uvSSE2
+	PredChroma8[1] = tm8uvSSE2
+	PredChroma8[2] = ve8uvSSE2
+	PredChroma8[3] = he8uvSSE2
+	FTransform = fTransformSSE2
+	ITransform = iTransformSSE2
+	Transform = transformTwoDecSSE2
+	TransformUV = transformUVSSE2
+	AddGreenToBlueAndRedFunc = addGreenToBlueAndRedSSE2
+	SubtractGreenFunc = subtractGreenSSE2
+	return true
+}
